@@ -404,6 +404,25 @@ func runC12Case(c *Ctx, idx int) *CaseResult {
 			cr.violate("load with overwrite=false replaced or modified the existing entry", map[string]interface{}{"grl": text})
 			return cr
 		}
+		// the same for existing entries that hold no rule (yet / any more): created by
+		// GetKnowledgeBase and not filled, or emptied by removing its only rule
+		for variant := 0; variant < 2; variant++ {
+			hollow := ast.NewKnowledgeLibrary()
+			if variant == 1 {
+				hollow, _ = BuildLib(`rule Keep "existing" salience 7 { when F.A == 424242 then F.B = 1; }`)
+				hollow.RemoveRuleEntry("Keep", kbName, kbVer)
+			}
+			hp := hollow.GetKnowledgeBase(kbName, kbVer)
+			hbefore := CanonKB(hp, false)
+			_, herr := hollow.LoadKnowledgeBaseFromReader(bytes.NewReader(stream), false)
+			cr.Evals++
+			if herr == nil || hollow.GetKnowledgeBase(kbName, kbVer) != hp || CanonKB(hp, false) != hbefore {
+				cr.violate(fmt.Sprintf("load with overwrite=false into a library whose entry of this name/version exists but holds no rule (%s): err=%v, entry replaced=%v",
+					[]string{"created by GetKnowledgeBase", "its only rule was removed"}[variant], herr, hollow.GetKnowledgeBase(kbName, kbVer) != hp), map[string]interface{}{"grl": text})
+				return cr
+			}
+			cr.inc("overwrite_false_on_hollow_entry_checks")
+		}
 		// overwrite=true replaces it
 		if _, lerr := other.LoadKnowledgeBaseFromReader(bytes.NewReader(stream), true); lerr != nil || CanonKB(other.GetKnowledgeBase(kbName, kbVer), false) != wantCanon {
 			cr.violate(fmt.Sprintf("load with overwrite=true did not install the stored knowledge base (err=%v)", lerr), map[string]interface{}{"grl": text})
